@@ -123,6 +123,17 @@ CHECKS = {
    note="Trusted: TLC, JSON bridge, char::to_lowercase, unicode-normalization, the regex engines as libraries. Two genuine defects found here were repaired (known_findings.json, fixed).",
    technique="TLA+ spec Normalize (Norm vs Fast/Slow) + TLC; S->I replay through the real plugin; I->S trace validation (Trace_Normalize)",
    design="4 C07"),
+ "C13": dict(
+   category="model_checking",
+   text="Oov.tla defines class runs as the property does (greedy from the text start, running class intersection), word-start permission, the MeCab-style candidate set per class "
+        "(invoke / group / length, several definitions per class), the simple fallback candidate to the next permissible word start, the regex provider for [set]+ (strict/relaxed boundary, "
+        "max length, already-created lengths) and the provider loop of a position (skip at NOOOVBOW characters, re-invocation of the last provider). TLC checks structural invariants of runs "
+        "(tiling, shared class, maximality, PrefixStable: appending text never re-cuts what precedes it) and that every position gets a candidate, for all class texts within bounds. Every "
+        "enumerated case is replayed on the real InputBuffer (run lengths, word-start flags) and the real providers through a generated char.def/unk.def; whole analyses with the shipped "
+        "definitions are trace-validated: tables, every provider invocation's node set, completeness of a position, and OOV morphemes (is_oov, dictionary -1, POS, forms = normalised slice).",
+   note="Trusted: TLC, JSON bridge; class sets come from CharacterCategory (C17). Candidates compared as sets. Regex provider only for [set]+. A genuine defect found here was repaired (known_findings.json, fixed).",
+   technique="TLA+ spec Oov + TLC; S->I replay on real InputBuffer/providers; I->S trace validation via hooks H2/H4 (Trace_Oov)",
+   design="4 C13"),
 }
 
 NOT_YET = "no check registered yet in this revision (work in progress; see DESIGN.md section 8 build order)"
